@@ -120,22 +120,22 @@ Definition laplacian_cotan (V : list vec) (F : list face) : mat := laplacian_gen
 Definition laplacian_uniform (F : list face) : mat := laplacian_gen (fun _ => lap_w_uniform O) F.
 
 (* ------------------------------------------------------------------ laplacian_op.cotan_edge_diagonal *)
-Definition ced_side (V : list vec) (F : list face) (a b : Z) : T :=
+Definition ced_side (opp : Z -> Z -> Z) (V : list vec) (F : list face) (a b : Z) : T :=
   match direct_face F a b with
   | None => o0 O
-  | Some (t, ia, ib) =>
+  | Some (t, ia, ib) =>   (* direct_face(a, b, True) = (face, local index of a, local index of b) *)
       let f := znth F t (0, 0, 0) in
-      corner_cot f (face_cots V f) (fnth f (ced_opp ia ib))
+      corner_cot f (face_cots V f) (fnth f (opp ia ib))
   end.
 Definition ced_coeffs (inverse : bool) (V : list vec) (F : list face) (E : list edge) : list T :=
   map (fun e : edge => let '(u, v) := e in
-         let c1 := ced_side V F u v in let c2 := ced_side V F v u in
+         let c1 := ced_side ced_opp1 V F u v in let c2 := ced_side ced_opp2 V F v u in
          if inverse then ced_coeff_inverse O c1 c2 else ced_coeff_direct O c1 c2) E.
 Definition cotan_edge_diagonal (inverse : bool) V F E : mat := diag (ced_coeffs inverse V F E).
 
 (* ------------------------------------------------------------------ laplacian_op.laplacian_edges *)
 Definition lape_corner (E : list edge) (prevV curV nextV : Z) (coeff : T) : mat :=
-  lape_coeffs O (edge_id E prevV curV) (edge_id E curV nextV) coeff.
+  let '(e1, e2) := lape_e1e2 (edge_id E) prevV curV nextV in lape_coeffs O e1 e2 coeff.
 Definition lape_gen (cf : face -> T * T * T) (E : list edge) (F : list face) : mat :=
   flat_map (fun f : face => let '(p, q, r) := f in let '(k0, k1, k2) := cf f in
               lape_corner E r p q k0 ++ lape_corner E p q r k1 ++ lape_corner E q r p k2) F.
@@ -207,30 +207,60 @@ Definition gradient_real (V : list vec) (F : list face) (bases : list (vec * vec
 Definition re_part (M : list (Z * Z * (T * T))) : mat := map (fun t => let '(i, j, (a, b)) := t in (i, j, a)) M.
 Definition im_part (M : list (Z * Z * (T * T))) : mat := map (fun t => let '(i, j, (a, b)) := t in (i, j, b)) M.
 
+(* ------------------------------------------------------------------ independent references (textbook definitions) *)
+(* gradient of the P1 hat function of A on the triangle ABC:  n x (C - B) / |n|^2  with n = (B - A) x (C - A) *)
+Definition hat_grad (pA pB pC : vec) : vec :=
+  let n := vcross O (vsub O pB pA) (vsub O pC pA) in
+  vdivs O (vcross O n (vsub O pC pB)) (vdot O n n).
+(* P1 stiffness matrix  K[i,j] = sum_T area(T) <grad phi_i, grad phi_j>, assembled triangle by triangle *)
+Definition stiff_tri (V : list vec) (f : face) : mat :=
+  let '(p, q, r) := f in
+  let pP := vnth V p in let pQ := vnth V q in let pR := vnth V r in
+  let gp := hat_grad pP pQ pR in let gq := hat_grad pQ pR pP in let gr := hat_grad pR pP pQ in
+  let ar := tri_area pP pQ pR in
+  let k := fun g h => omul O ar (vdot O g h) in
+  [(p, p, k gp gp); (p, q, k gp gq); (p, r, k gp gr);
+   (q, p, k gq gp); (q, q, k gq gq); (q, r, k gq gr);
+   (r, p, k gr gp); (r, q, k gr gq); (r, r, k gr gr)].
+Definition stiffness (V : list vec) (F : list face) : mat := flat_map (stiff_tri V) F.
+
+(* Re(G^* . diag(area) . G) accumulated face by face from the rows of the complex gradient *)
+Definition gram_face (V : list vec) (it : Z * (face * (vec * vec))) : mat :=
+  let rows := grad_face (grad_complex O) V it in
+  let '(_, (f, _)) := it in
+  let '(A, B, C) := f in
+  let ar := tri_area (vnth V A) (vnth V B) (vnth V C) in
+  flat_map (fun r1 : Z * Z * (T * T) => let '(_, a, (x1, y1)) := r1 in
+     map (fun r2 : Z * Z * (T * T) => let '(_, b, (x2, y2)) := r2 in
+            (a, b, omul O ar (oadd O (omul O x1 x2) (omul O y1 y2)))) rows) rows.
+Definition gram (V : list vec) (F : list face) (bases : list (vec * vec)) : mat :=
+  flat_map (gram_face V) (indexed (combine F bases)).
+
 (* ------------------------------------------------------------------ mass.py *)
-Definition post (inverse sqrt : bool) (d : list T) : list T :=
-  let d1 := if sqrt then map (osqrt O) d else d in
-  if inverse then map (fun x => odiv O (o1 O) x) d1 else d1.   (* inverse AFTER sqrt *)
 (* A[u] += w[iT] for u in T *)
 Definition vertex_acc (n : Z) (F : list face) (w : list T) : list T :=
   map (fun u => sumT O (flat_map (fun fw : face * T => let '((p, q, r), a) := fw in
+                   let a := massv_contrib a in
                    (if p =? u then [a] else []) ++ (if q =? u then [a] else []) ++ (if r =? u then [a] else []))
                  (combine F w))) (zrange n).
-Definition mass_vertices (inverse sqrt : bool) (n : Z) V F : mat := diag (post inverse sqrt (vertex_acc n F (areas V F))).
-Definition mass_faces (inverse : bool) V F : mat := diag (post inverse false (areas V F)).
+Definition mass_vertices (inverse sqrt : bool) (n : Z) V F : mat :=
+  diag (map (massv_post O inverse sqrt) (vertex_acc n F (areas V F))).
+Definition mass_faces (inverse : bool) V F : mat := diag (map (massf_post O inverse) (areas V F)).
 Definition edge_acc (F : list face) (w : list T) (E : list edge) : list T :=
   map (fun e : edge => let '(a, b) := e in
      let side u v := match direct_face_id F u v with
                      | Some t => [mass_edge_share O (znth w t (o0 O))] | None => [] end in
      sumT O (side a b ++ side b a)) E.
-Definition mass_edges (inverse : bool) V F E : mat := diag (post inverse false (edge_acc F (areas V F) E)).
+Definition mass_edges (inverse : bool) V F E : mat := diag (map (masse_post O inverse) (edge_acc F (areas V F) E)).
 
 (* ------------------------------------------------------------------ adjacency.py *)
-Definition adjacency (w : list T) (E : list edge) : mat :=
-  flat_map (fun ie : Z * (edge * T) => let '(e, ((a, b), d)) := ie in adj_entries e a b d) (indexed (combine E w)).
-Definition w_one (E : list edge) : list T := map (fun _ => o1 O) E.
-Definition w_length (V : list vec) (E : list edge) : list T :=
-  map (fun e : edge => let '(a, b) := e in vnorm O (vsub O (vnth V b) (vnth V a))) E.
+Definition adjacency (w : list (T * T)) (E : list edge) : mat :=
+  flat_map (fun ie : Z * (edge * (T * T)) => let '(e, ((a, b), (v0, v1))) := ie in adj_entries e a b v0 v1)
+           (indexed (combine E w)).
+Definition w_one (E : list edge) : list (T * T) := map (fun _ => adj_vals_one O) E.
+Definition w_length (V : list vec) (E : list edge) : list (T * T) :=
+  map (fun e : edge => let '(a, b) := e in adj_vals_length (vnorm O (vsub O (vnth V b) (vnth V a)))) E.
+Definition w_custom (w : list T) : list (T * T) := map adj_vals_custom w.
 Definition vertex_to_edge (oriented : bool) (E : list edge) : mat :=
   flat_map (fun ie : Z * edge => let '(e, (A, B)) := ie in v2e_entries O e A B (v2e_orig O oriented)) (indexed E).
 Definition vertex_to_face (F : list face) : mat :=
@@ -244,20 +274,22 @@ Definition cell_volumes (V : list vec) (C : list cell) : list T :=
   map (fun c : cell => let '(a, b, c1, d) := c in cell_volume (vnth V a) (vnth V b) (vnth V c1) (vnth V d)) C.
 Definition vol_vertex_acc (n : Z) (C : list cell) (w : list T) : list T :=
   map (fun u => sumT O (flat_map (fun cw : cell * T => let '(c, a) := cw in
-                   flat_map (fun x => if x =? u then [a] else []) (cell_list c)) (combine C w))) (zrange n).
+                   flat_map (fun x => if x =? u then [massvv_contrib a] else []) (cell_list c)) (combine C w))) (zrange n).
 Definition mass_vol_vertices (inverse sqrt : bool) (n : Z) V C : mat :=
-  diag (post inverse sqrt (vol_vertex_acc n C (cell_volumes V C))).
-Definition mass_vol_cells (inverse sqrt : bool) V C : mat := diag (post inverse sqrt (cell_volumes V C)).
+  diag (map (massvv_post O inverse sqrt) (vol_vertex_acc n C (cell_volumes V C))).
+Definition mass_vol_cells (inverse sqrt : bool) V C : mat := diag (map (massvc_post O inverse sqrt) (cell_volumes V C)).
 
 (* volume_laplacian: contribution of one cell to the weight of the edge (I, J) *)
-Definition vl_cell (V : list vec) (I J : Z) (c : cell) : list T :=
-  if zmem I (cell_list c) && zmem J (cell_list c) then
-    match filter (fun x => negb ((x =? I) || (x =? J))) (cell_list c) with
-    | [K; L] =>
-        let l := vnorm O (vsub O (vnth V L) (vnth V K)) in
-        let '(_, _, Z1) := face_basis (vnth V I) (vnth V K) (vnth V L) in
-        let '(_, _, Z2) := face_basis (vnth V J) (vnth V L) (vnth V K) in
-        let cot := odiv O (oabs O (vdot O Z1 Z2)) (vnorm O (vcross O Z1 Z2)) in
+Definition vl_cell (V : list vec) (vi vj : Z) (c : cell) : list T :=
+  if zmem vi (cell_list c) && zmem vj (cell_list c) then
+    match filter (fun x => negb ((x =? vi) || (x =? vj))) (cell_list c) with
+    | [vk; vl] =>
+        let l := vnorm O (vsub O (vnth V vl) (vnth V vk)) in
+        let fb := fun t : Z * Z * Z => let '(a, b, c1) := t in
+                    let '(_, _, nrm) := face_basis (vnth V a) (vnth V b) (vnth V c1) in nrm in
+        let Z1 := fb (vl_face1 vi vj vk vl) in
+        let Z2 := fb (vl_face2 vi vj vk vl) in
+        let cot := vl_cot O (vdot O Z1 Z2) (vnorm O (vcross O Z1 Z2)) in
         [vl_term O l cot]
     | _ => []
     end
